@@ -3,6 +3,7 @@
   addresses exactly the rows the reader decodes, rows stay within 1–15.
 -/
 import PcVerif.Model.Scc.Writer
+import PcVerif.Lemmas.SccRowLemmas
 namespace PcVerif.Props.C17
 open PcVerif PcVerif.Scc PcVerif.SccW
 
@@ -58,5 +59,32 @@ theorem writer_chars_decode_back :
 theorem writer_codes_injective :
     (Generated.Scc.charToCode.map (·.2)).Nodup ∧ (Generated.Scc.specialOrExtendedToCode.map (·.2)).Nodup := by
   refine ⟨?_, ?_⟩ <;> decide +kernel
+
+/-- the preamble written for rows 1–15 is one word and a blank -/
+theorem pac_word_len : (List.range 15).all (fun i => (pacFor (i + 1)).length == 5) = true := by decide +kernel
+
+/-- **C17 (what is written for a row).** for a line of characters of the basic table, written on a row 1–15 after any
+    whole number of words: the row's preamble twice, then exactly `rowWords line` — two characters per word, a last single
+    character completed by the filler byte `80` — each followed by a blank; nothing else -/
+theorem written_line_is_words (code : Str) (row : Nat) (line : List Char) (hr : (pacFor row).length = 5)
+    (hc : code.length % 5 = 0) (hb : ∀ c ∈ line, Basic c) :
+    lineCode code row line = code ++ pacFor row ++ pacFor row ++ (rowWords line).flatMap (fun w => w.toList ++ [' ']) := by
+  unfold lineCode
+  exact line_words line hb _ (by simp [hr]; omega)
+
+/-- **C17 (a written row re-reads to the same characters).** the reader — in whatever state, whatever mode — takes the
+    words written for a line of basic characters for character words only (never for a command, a preamble, a special or
+    an extended code) and the text it holds grows by exactly the line's characters, in order -/
+theorem written_row_rereads (line : List Char) (hb : ∀ c ∈ line, Basic c) (r : Reader) :
+    Props.C16.heldText (words r (rowWords line)) = Props.C16.heldText r ++ vis line :=
+  SccW.written_row_rereads line hb r
+
+/-- non-vacuity: the letters, digits, blank and punctuation of a typical caption are basic characters -/
+example : ∀ c ∈ "Hello, World 42!".toList, Basic c := by
+  intro c hc
+  have key : ∀ c ∈ "Hello, World 42!".toList, Generated.Scc.charToCode.any (fun e => e.1 == String.singleton c) = true := by
+    decide +kernel
+  obtain ⟨e, he, hk⟩ := List.any_eq_true.mp (key c hc)
+  exact ⟨e, he, by simpa using hk⟩
 
 end PcVerif.Props.C17
